@@ -179,7 +179,51 @@ def run(tier):
                           'lbzip2 %s in a directory with %s: %s [stderr: %s]' % (' '.join(cases[meta.index(m)]['args']),
                               {k: v[0] for k, v in before.items()}, why, r['stderr_head'][:100]),
                           {'engine': 'lbzx-batch', 'config': {k: str(v) for k, v in m.items() if k not in ('files', 'model')}})
-    chk.cov.update({'evaluations': len(cases), 'distinct_nontrivial': len(distinct),
+    # ---- rule 1 under faults: an operand that is skipped because its output exists (no -f), or because it is a
+    # symlink / has several links / a compressed suffix, while the diagnostic itself cannot be written (stderr
+    # broken: EPIPE+SIGPIPE, EIO) or one file-system call fails or one scheduling choice differs: nothing that
+    # existed before may change.  Every execution with <= 1 (2) such deviations.
+    import os
+    from lib import sched, fsx, common as _c
+    ex = sched.Explorer(chk, par=4, jobs=4)
+    root = _c.scratch('c17f')
+    def fault_cell(tag, args, files):
+        t = os.path.join(root, 't' + tag); w = os.path.join(root, 'w' + tag)
+        os.makedirs(t); os.makedirs(w)
+        want = {}
+        for fn, (data, mode) in files.items():
+            fsx.make_file(os.path.join(t, fn), data, mode)
+            want[fn] = (_c.fnv64(data), len(data), mode)
+        def orc(c):
+            if c['sanitizer']:
+                return 'sanitizer report'
+            if c['kind'] not in ('exit', 'signal'):
+                return 'ended by %s(%s)' % (c['kind'], c['code'])
+            fs = fsx.parse_fs(c['fs'])
+            for fn, (h, n, mode) in want.items():
+                a = fs.get(fn)
+                if a is None:
+                    return 'skipped operand (no -f): %s was removed' % fn
+                if a['hash'] != h or a['size'] != n or a['mode'] != mode:
+                    return 'skipped operand (no -f): %s was modified' % fn
+            extra = [n for n in fs if n not in want]
+            if extra:
+                return 'skipped operand, but new files appeared: %s' % extra
+            if c['kind'] == 'exit' and c['code'] == 0:
+                return 'exit status 0 for a skipped operand'
+            return None
+        ex.add('skip-under-faults', 'fast', args, None, orc, tag,
+               {'fs_template': t, 'fs_work': w, 'env_all_fds': True, 'fenv': 'err', 'senv': 'epipe,eio'}, policies='P0')
+    fault_cell('z-exists', ['-n2', '-z', 'file'], {'file': (TEXT, 0o644), 'file.bz2': (SENTINEL, 0o644)})
+    fault_cell('d-exists', ['-n2', '-d', 'file.bz2'], {'file.bz2': (COMP, 0o644), 'file': (SENTINEL, 0o600)})
+    fault_cell('d-exists-tbz', ['-n2', '-d', 'x.tbz2'], {'x.tbz2': (COMP, 0o644), 'x.tar': (SENTINEL, 0o644)})
+    fault_cell('z-suffix', ['-n2', '-z', 'a.bz2'], {'a.bz2': (TEXT, 0o644)})
+    fault_cell('z-exists-then-ok', ['-n2', '-z', 'file', 'other'], {'file': (TEXT, 0o644), 'file.bz2': (SENTINEL, 0o644), 'other.bz2': (SENTINEL, 0o640), 'other': (TEXT, 0o600)})
+    for d in range(1, (1 if quick else 2) + 1):
+        if not ex.run_pass(d):
+            break
+    ex.finish_cov('')
+    chk.cov.update({'evaluations': chk.cov.get('evaluations', 0) + len(cases), 'distinct_nontrivial': chk.cov.get('distinct_nontrivial', 0) + len(distinct),
                     'rule': 'product mode{z,d} x legal subsets of {-k,-c,-t,-f} x operand{regular,symlink,hard-linked,directory,missing} x name suffix '
                             '%s x pre-existing output{absent,regular,read-only} x permission bits %s x %d timestamp pairs (dimensions irrelevant for an operand '
                             'type are fixed); distinct = distinct configurations' % (SUFFIXES, [oct(p) for p in perms], len(times)),
